@@ -1,4 +1,4 @@
-import RdpModel.Lemmas.Rle16Orders
+import RdpModel.Lemmas.Rle16Orders2
 import RdpModel.Codec.Decompress
 /-
   The whole stream: the reference decoder's loop simulated by the port's, and the output
@@ -77,6 +77,71 @@ theorem orders_sim {inp : Input} {w h0 : Nat} (hw : 0 < w) (fuel : Nat) :
             simp only [hp, if_true, hs', Outcome.bind_ok]
             exact hfin
         · rw [if_neg hlt] at hdec; cases hdec
+
+/-- **The order loop, every order kind.** -/
+theorem orders_sim_all {inp : Input} {w h0 : Nat} (hw : 0 < w) (fuel : Nat) :
+    ∀ {s : St} {d dfin : DState} {src : Bytes}, Rel inp w h0 s d src →
+      decodeLoop w (w * h0) fuel d src = some dfin →
+      noFirstLineCrossingLoop w (w * h0) fuel d src = true →
+      ∀ G, src.length < G → ∃ sfin, orders inp w h0 G s = .ok sfin ∧ Rel inp w h0 sfin dfin [] := by
+  induction fuel with
+  | zero => intro s d dfin src _ hdec; simp [decodeLoop] at hdec
+  | succ fuel ih =>
+    intro s d dfin src r hdec hnc G hG
+    cases G with
+    | zero => omega
+    | succ G =>
+    cases src with
+    | nil =>
+      simp only [decodeLoop, Option.some.injEq] at hdec
+      subst hdec
+      have hl := srcOf_length inp s.pos
+      rw [r.src] at hl
+      simp only [List.length_nil] at hl
+      refine ⟨s, ?_, r⟩
+      unfold orders
+      have : ¬ s.pos < inp.size := by omega
+      simp [this]
+    | cons b rest =>
+      obtain ⟨hp, _, _⟩ := srcOf_cons r.src
+      simp only [decodeLoop] at hdec
+      simp only [noFirstLineCrossingLoop] at hnc
+      cases hstep : stepOrder w (w * h0) d (b :: rest) with
+      | none => rw [hstep] at hdec; cases hdec
+      | some ds =>
+        obtain ⟨d', src'⟩ := ds
+        rw [hstep] at hdec hnc
+        simp only at hdec hnc
+        by_cases hlt : src'.length < (b :: rest).length
+        · simp only [hlt, if_true] at hdec
+          by_cases hcross : d.dest.length < w ∧ w < d'.dest.length
+          · simp [hcross] at hnc
+          · simp only [hcross, if_false, hlt, if_true] at hnc
+            obtain ⟨s', hs', r'⟩ := order_sim_all r hw hstep (by simp) hcross
+            obtain ⟨sfin, hfin, rfin⟩ := ih r' hdec hnc G (by simp only [List.length_cons] at hlt hG; omega)
+            refine ⟨sfin, ?_, rfin⟩
+            unfold orders
+            simp only [hp, if_true, hs', Outcome.bind_ok]
+            exact hfin
+        · rw [if_neg hlt] at hdec; cases hdec
+
+/-- with width 0 the reference decoder accepts only the empty stream -/
+theorem rle16Decode_w0 (h : Nat) (src : Bytes) (flat : List Pixel) (href : rle16Decode 0 h src = some flat) :
+    src = [] ∧ flat = [] := by
+  unfold rle16Decode at href
+  cases src with
+  | nil => simp [decodeLoop] at href; exact ⟨rfl, href⟩
+  | cons b rest =>
+    exfalso
+    simp only [decodeLoop] at href
+    cases hstep : stepOrder 0 (0 * h) ⟨[], WHITE, false, true⟩ (b :: rest) with
+    | none => rw [hstep] at href; simp at href
+    | some ds =>
+      obtain ⟨d', src'⟩ := ds
+      obtain ⟨k, f, run, src1, _, _, hrun0, hcap, _⟩ := stepOrder_some hstep
+      rw [resetFirst_dest] at hcap
+      simp only [List.length_nil, Nat.zero_mul, Nat.zero_add] at hcap
+      split at hcap <;> omega
 
 /-! ### reading the buffer back top-down -/
 
